@@ -95,6 +95,7 @@ theorem dead_stays_dead (k : Kernel) (e : KEv) (pid g : Nat) (hg : g < k.clock)
 
 structure KInv (k : Kernel) : Prop where
   uniq : (k.procs.map (·.pid)).Nodup
+  stamped : ∀ x ∈ k.procs, x.start < k.clock
   btime : k.btime ≠ 0
 
 /-- events a history may contain: the published boot time is never 0 (1970-01-01) -/
@@ -109,25 +110,42 @@ theorem KInv.apply {k : Kernel} (h : KInv k) (e : KEv) (he : e.OK) : KInv (k.app
     | some x => rw [apply_spawn_busy hf]; exact h
     | none =>
       rw [apply_spawn_free hf]
-      refine ⟨?_, h.btime⟩
-      simp only [List.map_cons, List.nodup_cons]
-      refine ⟨?_, h.uniq⟩
-      intro hm
-      obtain ⟨x, hx, hxp⟩ := List.mem_map.1 hm
-      have := List.find?_eq_none.1 hf x hx
-      simp [hxp] at this
+      refine ⟨?_, ?_, h.btime⟩
+      · simp only [List.map_cons, List.nodup_cons]
+        refine ⟨?_, h.uniq⟩
+        intro hm
+        obtain ⟨x, hx, hxp⟩ := List.mem_map.1 hm
+        have := List.find?_eq_none.1 hf x hx
+        simp [hxp] at this
+      · intro x hx
+        rcases List.mem_cons.1 hx with rfl | hx
+        · exact Nat.lt_succ_self _
+        · exact Nat.lt_succ_of_lt (h.stamped x hx)
   | exit p =>
-    refine ⟨?_, h.btime⟩
-    have : (k.apply (.exit p)).procs.map (·.pid) = k.procs.map (·.pid) := by
-      simp only [Kernel.apply, List.map_map]
-      apply List.map_congr_left
-      intro x _; simp only [Function.comp]; split <;> rfl
-    rw [this]; exact h.uniq
+    refine ⟨?_, ?_, h.btime⟩
+    · have : (k.apply (.exit p)).procs.map (·.pid) = k.procs.map (·.pid) := by
+        simp only [Kernel.apply, List.map_map]
+        apply List.map_congr_left
+        intro x _; simp only [Function.comp]; split <;> rfl
+      rw [this]; exact h.uniq
+    · intro x hx
+      simp only [Kernel.apply, List.mem_map] at hx
+      obtain ⟨y, hy, rfl⟩ := hx
+      have := h.stamped y hy
+      split <;> exact this
   | reap p =>
-    refine ⟨?_, h.btime⟩
-    exact List.Nodup.sublist (List.Sublist.map _ List.filter_sublist) h.uniq
-  | tick n => exact ⟨h.uniq, h.btime⟩
-  | setBtime b => exact ⟨h.uniq, he⟩
+    refine ⟨?_, ?_, h.btime⟩
+    · exact List.Nodup.sublist (List.Sublist.map _ List.filter_sublist) h.uniq
+    · intro x hx
+      exact h.stamped x (List.mem_filter.1 hx).1
+  | tick n =>
+    refine ⟨h.uniq, ?_, h.btime⟩
+    intro x hx
+    exact Nat.lt_of_lt_of_le (h.stamped x hx) (Nat.le_add_right _ _)
+  | setBtime b => exact ⟨h.uniq, h.stamped, he⟩
+
+theorem KInv.find_lt {k : Kernel} (h : KInv k) {pid : Nat} {x : Inst} (hf : k.find pid = some x) :
+    x.start < k.clock := h.stamped x (List.mem_of_find?_eq_some hf)
 
 theorem mem_eq_of_nodup_pid : ∀ {l : List Inst}, (l.map (·.pid)).Nodup →
     ∀ {a b : Inst}, a ∈ l → b ∈ l → a.pid = b.pid → a = b
